@@ -314,7 +314,12 @@ def ranked_dump(path):
             'select queued_url_id, status from queued_files order by id').fetchall())
         h = tuple(x[0] for x in cur.execute(
             'select hostname from hostnames order by hostname').fetchall())
-        return (tuple(u for _, u in us), qd, v, f, h)
+        # queued_files (f) is deliberately not part of the state: the property cannot
+        # observe it (only convert_check_out reads it), no operation of the alphabet reads
+        # it back into the other tables, and its content depends on raw row ids (check_in
+        # stores url_strings.id in queued_files.queued_url_id), so keeping it while
+        # rank-normalising ids merged states with different futures (DESIGN.md section 7)
+        return (tuple(u for _, u in us), qd, v, h)
     finally:
         con.close()
 
@@ -409,7 +414,9 @@ def bfs(space, ops_by_depth, start_hist, start_image, start_ref, res, diff_all):
                                 if (a[0], repr(a[1]), a[4]) != (b[0], repr(b[1]), b[4]):
                                     add_violation(
                                         res, 'merged states have different futures under '
-                                        '%r' % (op2,), hist + [op])
+                                        '%r: %r vs %r' % (op2, (a[0], repr(a[1])),
+                                                          (b[0], repr(b[1]))), hist + [op],
+                                        dict(other=first_hist, op2=op2))
                     continue
                 keep_img = image2 if depth + 1 < len(ops_by_depth) else None
                 seen[key] = [mk, hist + [op], False, keep_img]
@@ -420,14 +427,17 @@ def bfs(space, ops_by_depth, start_hist, start_image, start_ref, res, diff_all):
     return seen
 
 
-def add_violation(res, v, hist):
+def add_violation(res, v, hist, extra=None):
     cls = v.split(' ')[0:3]
     sig = 'C14:%s:%s' % (' '.join(v.split(' ')[:4])[:50], hist[-1][0])
     if any(x['signature'] == sig for x in res['violations']) or \
             len(res['violations']) >= 5:
         return
-    res['violations'].append(dict(violation='%s [after %s]' % (v, summarize(hist)),
-                                  signature=sig, history=hist))
+    rec = dict(violation='%s [after %s]' % (v, summarize(hist)), signature=sig, history=hist)
+    if extra:
+        rec['violation'] += ' [first reached by %s]' % summarize(extra['other'])
+        rec.update(extra)
+    res['violations'].append(rec)
 
 
 def summarize(hist):
@@ -435,7 +445,7 @@ def summarize(hist):
 
 
 def jobs(tier, seed):
-    depth = 3 if tier == 'quick' else 5
+    depth = 3 if tier == 'quick' else 4
     js = []
     for i in range(len(OPS_FULL)):
         js.append(dict(first=i, depth=depth, tier=tier))
@@ -449,6 +459,8 @@ def ops_by_depth(depth, tier):
     if tier == 'quick':
         return [OPS_FULL] * depth
     # thorough: full alphabet for the first three levels, reduced for the rest
+    # (depth 5 did not finish in 35 minutes on 16 cores once the alphabet reached 34
+    # operations; depth 4 is the deepest level that completes)
     return [OPS_FULL] * min(depth, 3) + [OPS_REDUCED] * max(0, depth - 3)
 
 
@@ -483,6 +495,21 @@ def replay(rec):
     _imports()
     sp = Space()
     try:
+        if rec.get('op2') is not None:
+            # differential violation: both histories, then the distinguishing operation
+            ends = []
+            for h in (rec['other'], rec['history']):
+                image, ref = sp.initial(), RefTable()
+                for op in h:
+                    v, ret, image, ref, key = sp.step(image, ref, fix_op(op))
+                ends.append((image, ref, key))
+            op2 = fix_op(rec['op2'])
+            a = sp.step(ends[0][0], ends[1][1], op2)
+            b = sp.step(ends[1][0], ends[1][1], op2)
+            obs = [ends[0][2] == ends[1][2], a[0], repr(a[1]), b[0], repr(b[1])]
+            bad = ends[0][2] == ends[1][2] and \
+                (a[0], repr(a[1]), a[4]) != (b[0], repr(b[1]), b[4])
+            return (rec['violation'] if bad else None), (rec['signature'] if bad else None), obs
         image, ref = sp.initial(), RefTable()
         obs = []
         for op in rec['history']:
@@ -521,8 +548,8 @@ def describe(tier):
              'operation; states deduplicated by a rank-normalised dump of all five tables read '
              'with sqlite3 directly; every transition closes and re-opens the on-disk table.  '
              'distinct = distinct database states'
-             % (len(OPS_FULL), 3 if tier == 'quick' else 5, len(OPS_REDUCED)),
-        bounds=dict(depth=3 if tier == 'quick' else 5, ops=len(OPS_FULL)),
+             % (len(OPS_FULL), 3 if tier == 'quick' else 4, len(OPS_REDUCED)),
+        bounds=dict(depth=3 if tier == 'quick' else 4, ops=len(OPS_FULL)),
         assumptions=['check_out may return any row with the requested status (the model '
                      'follows the implementation\'s choice); depth bound is boundary-tolerant '
                      '(DESIGN.md section 6)',
